@@ -71,19 +71,19 @@ def parse_unwind(n, bl, pcap):
     plen = pcap + bl - 3
     dflt = max(n, plen, bl) + 2            # harness / stub / reference loops: constant bounds <= max(N, PLEN, BL) + 1
     us = {
-        'htp_martp_process_aside.0': pmax + 2, 'htp_martp_process_aside.1': pmax + 2,   # replay of <= PMAX stored pieces
-        'c14_check_pieces.0': pmax + 3,
-        'htp_mpartp_parse.0': n + 2, 'htp_mpartp_parse.1': n + 2,     # inner scans of STATE_DATA / STATE_BOUNDARY
+        'htp_martp_process_aside.0': pmax + 1, 'htp_martp_process_aside.1': pmax + 1,   # replay of <= PMAX stored pieces
+        'htp_mpartp_parse.0': n + 2,           # inner scan of STATE_DATA
+        'htp_mpartp_parse.1': min(n, bl - 2) + 1,   # inner scan of STATE_BOUNDARY: every iteration matches one more delimiter byte
         'htp_mpartp_parse.2': 2 * n + 4,       # dispatches: every one consumes a byte or follows one that did (see notes)
     }
     return dflt, ','.join('%s:%d' % kv for kv in sorted(us.items()))
 
 
-def parse_unit(name, n, bl, pcap, timeout, thorough_only=False):
+def parse_unit(name, n, bl, pcap, timeout, thorough_only=False, extra=''):
     dflt, us = parse_unwind(n, bl, pcap)
     UNITS.append(U(
-        name=name, props=['C14', 'C01'], kind='bounded', src=[], link=[],
-        replay='vin', contracts_inc=['c14_mpart.h'], pre=PARSE_PRE,
+        name=name, props=['C14', 'C01'], kind='bounded', src=[], link=['htp_util.c'],
+        replay='vin', contracts_inc=['c14_mpart.h'], pre=extra + PARSE_PRE,
         harness='void HARNESS(void) { VIN(vin_t); c14_parse_harness(in); CANARY(); }',
         defs={'quick': {'N': n, 'BL': bl, 'PCAP': pcap}},
         flags_add=['--unwind', str(dflt)], unwindset=us, timeout=(timeout, timeout), min_obl=200, thorough_only=thorough_only,
@@ -95,4 +95,4 @@ def parse_unit(name, n, bl, pcap, timeout, thorough_only=False):
         assumes=PARSE_ASSUMES))
 
 
-parse_unit('c14_parse_call', 4, 5, 3, 120)
+parse_unit('c14_parse_call', 4, 5, 3, 300, extra='#define C14_NO_PIECES 1\n')
